@@ -238,7 +238,7 @@ Lemma HInv_good_same s s' :
   HInv s -> good s s' -> chan_w s' = chan_w s -> HInv s'.
 Proof. intros H G E. apply (HInv_good s s' H G). intros a m c _. rewrite E. auto. Qed.
 
-Lemma HInv_send s c f : HInv s -> HInv (set_log s (LFrame c f (is_clean s) :: log s)).
+Lemma HInv_send s c f : HInv s -> HInv (set_log s (LFrame c f (is_clean s) (now s) :: log s)).
 Proof.
   intros [H L]. split.
   - apply (SInv_same s); auto.
@@ -1074,7 +1074,7 @@ Theorem on_message_spec c msg o s :
 Proof using cfg Hexp.
   intros H Hhc. unfold on_message. wp_step.
   assert (Herr : forall k s1, HInv s1 -> ext s s1 ->
-            wp (send c (FError k)) (fun _ s' => HInv s' /\ ids_same s s' /\ log_ext s s')
+            wp (send c (FError k msg)) (fun _ s' => HInv s' /\ ids_same s s' /\ log_ext s s')
                (fun e s' => HInv s' /\ ids_same s s' /\ log_ext s s' /\ esc s c msg o e) s1).
   { intros k s1 H1 X1. wp_step. split; [apply HInv_send; exact H1|].
     exact (ext_trans _ _ _ X1 (ext_log s1 _)). }
